@@ -66,7 +66,8 @@ FirstErr(ts) == IF \E i \in 1..Len(ts) : IsErr(ts[i]) THEN ts[CHOOSE i \in 1..Le
 AnyErr(ts) == \E i \in 1..Len(ts) : IsErr(ts[i])
 
 BuiltinsT == {"println", "print", "array_length", "at", "array_set", "array_push", "array_pop",
-              "str_length", "int_to_string", "abs", "min", "max"}
+              "str_length", "int_to_string", "abs", "min", "max", "str_substring", "str_contains", "str_equals", "str_concat",
+              "char_at", "string_from_char", "string_to_int"}
 BuiltinType(name, ts) ==
    LET n == Len(ts) IN
    CASE name \in {"println", "print"} -> IF n # 1 THEN Err("arity") ELSE TVoid      \* print accepts a value of any type (9.5)
@@ -77,6 +78,12 @@ BuiltinType(name, ts) ==
      [] name = "array_pop" -> IF n # 1 THEN Err("arity") ELSE IF ts[1].k = "arr" /\ ts[1].a[1].k # "any" THEN ts[1].a[1] ELSE Err("argtype")
      [] name = "str_length" -> IF n # 1 THEN Err("arity") ELSE IF ts[1] = TStr THEN TInt ELSE Err("argtype")
      [] name = "int_to_string" -> IF n # 1 THEN Err("arity") ELSE IF ts[1] = TInt THEN TStr ELSE Err("argtype")
+     [] name = "str_substring" -> IF n # 3 THEN Err("arity") ELSE IF ts[1] = TStr /\ ts[2] = TInt /\ ts[3] = TInt THEN TStr ELSE Err("argtype")
+     [] name \in {"str_contains", "str_equals"} -> IF n # 2 THEN Err("arity") ELSE IF ts[1] = TStr /\ ts[2] = TStr THEN TBool ELSE Err("argtype")
+     [] name = "str_concat" -> IF n # 2 THEN Err("arity") ELSE IF ts[1] = TStr /\ ts[2] = TStr THEN TStr ELSE Err("argtype")
+     [] name = "char_at" -> IF n # 2 THEN Err("arity") ELSE IF ts[1] = TStr /\ ts[2] = TInt THEN TInt ELSE Err("argtype")
+     [] name = "string_from_char" -> IF n # 1 THEN Err("arity") ELSE IF ts[1] = TInt THEN TStr ELSE Err("argtype")
+     [] name = "string_to_int" -> IF n # 1 THEN Err("arity") ELSE IF ts[1] = TStr THEN TInt ELSE Err("argtype")
      [] name = "abs" -> IF n # 1 THEN Err("arity") ELSE IF ts[1] = TInt THEN TInt ELSE Err("argtype")
      [] name \in {"min", "max"} -> IF n # 2 THEN Err("arity") ELSE IF ts[1] = TInt /\ ts[2] = TInt THEN TInt ELSE Err("argtype")
 
